@@ -13,6 +13,8 @@ type omap struct {
 	kt    types.Type
 	keys  []value
 	vals  []value
+	ids   []int64 // identity of each entry (for iterators that survive deletions)
+	nid   int64
 	idx   map[value]int // for concrete, Go-hashable keys
 	plain bool          // keys are basic/pointer typed (Go-hashable when concrete)
 	nsym  int           // number of stored keys that are symbolic
@@ -82,11 +84,21 @@ func (m *omap) insert(p *Path, key, v value) {
 	}
 }
 
+// ensureIDs gives every entry an identity.
+func (m *omap) ensureIDs() {
+	for len(m.ids) < len(m.keys) {
+		m.nid++
+		m.ids = append(m.ids, m.nid)
+	}
+}
+
 func (m *omap) delete(p *Path, key value) {
 	i := m.find(p, key)
 	if i < 0 {
 		return
 	}
+	m.ensureIDs()
+	m.ids = append(m.ids[:i:i], m.ids[i+1:]...)
 	if m.plain && isSym(m.keys[i]) {
 		m.nsym--
 	}
@@ -151,19 +163,40 @@ func (m *omap) order(p *Path) []int {
 }
 
 type omapIter struct {
-	m   *omap
-	ord []int
-	i   int
+	m    *omap
+	ord  []int
+	i    int
+	snap []int64 // identities of the entries when the iteration began
 }
 
+// next produces the entries that existed when the iteration began and have
+// not been deleted since, in the chosen order (as Go does; entries added
+// during the iteration are not produced).
 func (it *omapIter) next() tuple {
+	if it.m == nil {
+		return tuple{false, nil, nil}
+	}
+	if it.snap == nil {
+		it.m.ensureIDs()
+		it.snap = append([]int64{}, it.m.ids...)
+		if it.ord == nil {
+			it.ord = make([]int, len(it.snap))
+			for k := range it.ord {
+				it.ord[k] = k
+			}
+		}
+	}
 	for it.i < len(it.ord) {
 		j := it.ord[it.i]
 		it.i++
-		// entries deleted during iteration: ord was computed on a snapshot;
-		// guard against shrinking.
-		if j < len(it.m.keys) {
-			return tuple{true, it.m.keys[j], it.m.vals[j]}
+		if j >= len(it.snap) {
+			continue
+		}
+		it.m.ensureIDs()
+		for k, id := range it.m.ids {
+			if id == it.snap[j] {
+				return tuple{true, it.m.keys[k], it.m.vals[k]}
+			}
 		}
 	}
 	return tuple{false, nil, nil}
